@@ -47,6 +47,11 @@ import "github.com/go-json-experiment/json/internal/jsonflags"
 //@ requires dst != nil && vForall(0, len(srcs), func(i int) bool { return isStruct(srcs[i]) ==> asStruct(srcs[i]) != nil })
 //@ modifies *dst
 //@ loop 0 invariant true
+//@ loop 0 step indent-last-wins: isStruct(src) ==> dst.Indent == ite(asStruct(src).Flags.Has(jsonflags.Indent), asStruct(src).Indent, prev(dst.Indent))
+//@ loop 0 step prefix-last-wins: isStruct(src) ==> dst.IndentPrefix == ite(asStruct(src).Flags.Has(jsonflags.IndentPrefix), asStruct(src).IndentPrefix, prev(dst.IndentPrefix))
+//@ loop 0 step byte-limit-last-wins: isStruct(src) ==> dst.ByteLimit == ite(asStruct(src).Flags.Has(jsonflags.ByteLimit), asStruct(src).ByteLimit, prev(dst.ByteLimit))
+//@ loop 0 step depth-limit-last-wins: isStruct(src) ==> dst.DepthLimit == ite(asStruct(src).Flags.Has(jsonflags.DepthLimit), asStruct(src).DepthLimit, prev(dst.DepthLimit))
+//@ loop 0 step format-last-wins: isStruct(src) ==> dst.Format == ite(asStruct(src).Flags.Has(jsonflags.FormatTag), asStruct(src).Format, prev(dst.Format))
 //@ at call src.Flags.Has#0 assert nonbool-mask: !callResult ==> !src.Flags.Has(jsonflags.Indent) && !src.Flags.Has(jsonflags.IndentPrefix) && !src.Flags.Has(jsonflags.ByteLimit) && !src.Flags.Has(jsonflags.DepthLimit) && !src.Flags.Has(jsonflags.Marshalers) && !src.Flags.Has(jsonflags.Unmarshalers) && !src.Flags.Has(jsonflags.FormatTag)
 
 //@ spec isStruct
